@@ -1,6 +1,6 @@
 SPECIFICATION Spec
 CONSTANTS
-  TopTypes = {"int", "ptr", "AI3", "AIX", "AC4", "ACX", "APX", "MC", "B", "N", "A", "U", "SA", "SC", "SW", "B2", "AW2", "AH2", "MW", "SW2", "SH", "AS"}
+  TopTypes = {"int", "ptr", "AI3", "AIX", "AC4", "ACX", "APX", "MC", "B", "N", "A", "U", "SA", "SC", "SW", "B2", "AW2", "AH2", "MW", "SW2", "SH", "double", "float", "AD2", "SD", "UD", "AS"}
   MaxTok = 6
   MaxIdx = 2
   AllowAgg = FALSE
